@@ -55,3 +55,18 @@ Definition remove_one_edge (p : poly) (A B : Z) : option poly :=
         if nodup_b cyc then Some (rest ++ [cyc]) else None
     end
   end.
+
+(* ------------------------------------------------------------ coplanarity
+   planar_triple = det (pos a - q, pos b - q, pos c - q): zero for all a b c of
+   a node set iff the nodes lie in one plane through q.  Shared by the Prop
+   `planar_at` (over R, ProofsEdgeVol.v) and the checker `planar_b` (over Q). *)
+Section Planar.
+  Context {T : Type} (O : Ops T).
+  Definition vsub (u v : V3 T) : V3 T :=
+    let '(a, b, c) := u in let '(d, e, f) := v in (sub O a d, sub O b e, sub O c f).
+  Definition planar_triple (pos : Z -> V3 T) (q : V3 T) (a b c : Z) : T :=
+    det3 O (vsub (pos a) q) (vsub (pos b) q) (vsub (pos c) q).
+End Planar.
+
+(* the nodes of the faces that remove_one_edge fuses *)
+Definition fused_nodes (p : poly) (A B : Z) : list Z := concat (filter (contains_ab A B) p).
